@@ -8,6 +8,7 @@ mod c07s;
 mod c08;
 mod c09;
 mod c10;
+mod c13;
 mod c14;
 mod c16;
 mod c18;
@@ -33,6 +34,7 @@ fn main() {
         "c08" => c08::run(&text, &mut out),
         "c18" => c18::run(&text, &args[2], &mut out),
         "c16" => c16::run(&text, &args[2], &mut out),
+        "c13" => c13::run(&text, &args[2], &mut out),
         "c10" => c10::run(&text, &args[2], &mut out),
         "c09" => c09::run(&text, &args[2], &mut out),
         "c14gen" => c14::gen(&text, &mut out),
